@@ -12,12 +12,14 @@
 EXTENDS Naturals, Sequences, FiniteSets, TLC, Json
 
 CONSTANTS Dev
-DevNames == {"DetachDropsSignature", "KidNotWritten", "RawPayloadEncoded", "UnsafeAttached"}
+DevNames == {"DetachDropsSignature", "KidNotWritten", "RawPayloadEncoded", "UnsafeAttached", "EmptyProtectedSigned"}
 ASSUME Dev \subseteq DevNames
 
 Sers == {"compact", "flattened", "general"}
 B64s == {"absent", "true", "false"}
-Places == {"protected", "split", "unprotected"}       \* split: alg protected, the rest unprotected
+\* split: alg protected, the rest unprotected; unprotected_empty: "protected": {} given explicitly - an empty protected header
+\* is not carried ("protected" member absent, RFC 7515 7.2.1), so it must not enter the signing input either
+Places == {"protected", "split", "unprotected", "unprotected_empty"}
 PClasses == {"empty", "ascii", "urlsafe", "dot", "binary", "utf8", "large"}
 KeyArgs == {"key", "keyset", "callable"}
 KeyForms == {"jwk", "pem", "der"}
@@ -31,7 +33,8 @@ Entry(sc) == IF sc.b64 = "absent" THEN "jws" ELSE "7797"
 Valid(sc) ==
   /\ (sc.ser = "compact" => sc.place = "protected")
   /\ (sc.b64 # "absent" => sc.ser # "general")                 \* rfc7797.serialize_json is flattened only
-  /\ (sc.b64 # "absent" => sc.place # "unprotected")           \* b64 is given in the protected header here (see C01 for the other case)
+  /\ (sc.ser = "compact" => sc.place = "protected")
+  /\ (sc.b64 # "absent" => sc.place \notin {"unprotected", "unprotected_empty"})           \* b64 is given in the protected header here (see C01 for the other case)
 \* "exact": the round trip must return the payload; "exact_or_refuse": the combination cannot be represented,
 \* the library may refuse but must never return different content
 Expect(sc) ==
@@ -60,7 +63,8 @@ Attached == \/ sc.ser # "compact" \/ sc.b64 # "false" \/ UrlSafe(sc.pc) \/ "Unsa
 Sign ==
   /\ phase = "sign"
   /\ tok' = [h |-> SignedHeader, u |-> IF sc.place = "protected" THEN "none" ELSE "U",
-             body |-> IF Attached THEN BodyText ELSE "detached", sig |-> <<"S", SignedHeader, BodyText>>]
+             body |-> IF Attached THEN BodyText ELSE "detached",
+             sig |-> <<"S", IF sc.place = "unprotected_empty" /\ "EmptyProtectedSigned" \in Dev THEN "e30" ELSE SignedHeader, BodyText>>]
   /\ orig' = tok'
   /\ phase' = IF sc.detach THEN "detach" ELSE "verify"
   /\ UNCHANGED <<sc, verdict>>
